@@ -46,6 +46,20 @@ def bodies(depth, rebuilds_left):
     return out
 
 
+def random_body(r, rebuilds_left):
+    """a random build-closure body beyond the enumerated bounds: up to 4 nodes, containers with up to 4 operations in any
+    order (repeats allowed), rebuilds nested up to three deep"""
+    nodes = []
+    for _ in range(r.randint(0, 4)):
+        if r.random() < 0.3:
+            nodes.append(r.choice(leaf_nodes()))
+        else:
+            nodes.append({"op": "start_container", "config": CCONF, "body": [copy.deepcopy(r.choice(CONTAINER_OPS)) for _ in range(r.randint(0, 4))]})
+    if rebuilds_left > 0 and r.random() < 0.6:
+        nodes.append({"op": "rebuild", "config": bconf(r.random() < 0.5), "body": random_body(r, rebuilds_left - 1)})
+    return nodes
+
+
 def count_panic_points(body):
     """positions where a panic node can be inserted: (path, index)"""
     pts = []
@@ -265,6 +279,9 @@ def trees(tier, seed):
     if tier == "quick" and len(out) > 160:
         keep = out[:40] + r.sample(out[40:], 120)
         out = keep
+    if tier == "thorough":
+        for _ in range(500):
+            out.append((bconf(pre=r.random() < 0.4, expected="failure" if r.random() < 0.05 else "success"), random_body(r, 3)))
     return list(enumerate(out))
 
 
